@@ -360,9 +360,13 @@ class State(object):
 
 
 def explore(run, cuts=None, max_paths=4000):
-    """Enumerate all feasible paths of run(st) by re-execution with decision scripts."""
+    """Enumerate all feasible paths of run(st) by re-execution with decision scripts.
+
+    Generator: yields (st, outcome) for one path at a time, *before* the next path is started, so
+    that the symbol tables / side conditions of core.py still belong to the yielded path while the
+    caller lowers terms and discharges that path's obligations."""
     work = [[]]
-    results = []
+    n = 0
     while work:
         script = work.pop()
         core.reset_symbols()
@@ -371,13 +375,13 @@ def explore(run, cuts=None, max_paths=4000):
             out = run(st)
         except Infeasible:
             out = ('infeasible', None)
-        st.side = core.side_conditions()
-        results.append((st, out))
         for i in range(len(script), len(st.decisions)):
             work.append(st.decisions[:i] + [not st.decisions[i]])
-        if len(results) > max_paths:
+        n += 1
+        if n > max_paths:
             raise EngineError('path enumeration exceeded %d paths' % max_paths)
-    return [(st, out) for st, out in results if out[0] != 'infeasible']
+        if out[0] != 'infeasible':
+            yield st, out
 
 
 # --------------------------------------------------------------------------
